@@ -162,6 +162,9 @@ func verifyFunc(w *World, key string) *FuncResult {
 			t := env.evalBool(c.E)
 			g.addOblig(exit, "post", "post."+clauseName(c, i), t, c.Src)
 		}
+		for i, c := range fc.AssumedEnsures {
+			g.trusted["assumed clause "+shortKey(key)+"#"+clauseName(c, i)+" (not proved against the body)"] = true
+		}
 		g.frameObligations(fc, exit, params, pkgPath)
 	}()
 	// aliases for scalar fields of struct-pointer inputs in the entry heap (so that models show them)
